@@ -56,6 +56,7 @@ def main():
                           '-I' + inc, '-I' + cfg, tu], stdout=subprocess.PIPE, stderr=subprocess.PIPE, check=True).stdout.decode()
     root = json.loads(txt)
     statics, mutables, calls = [], [], {}
+    const_members = set()
     declared_here = set()
     cur_file = ['']
 
@@ -95,6 +96,22 @@ def main():
             rd = n.get('referencedDecl') or {}
             if rd.get('kind') == 'FunctionDecl' and rd.get('name'):
                 calls[rd['name']] = calls.get(rd['name'], 0) + 1
+        if kind == 'CXXRecordDecl' and n.get('name') == 'string' and here and n.get('completeDefinition'):
+            access = 'private'
+            for c in n.get('inner', []) or []:
+                if c.get('kind') == 'AccessSpecDecl':
+                    access = c.get('access', access)
+                if c.get('kind') in ('CXXMethodDecl', 'FunctionTemplateDecl') and access == 'public' and not c.get('isImplicit'):
+                    m = c
+                    if c.get('kind') == 'FunctionTemplateDecl':
+                        ms = [x for x in c.get('inner', []) if x.get('kind') == 'CXXMethodDecl']
+                        if not ms:
+                            continue
+                        m = ms[0]
+                    qt = (m.get('type') or {}).get('qualType', '')
+                    is_const = qt.rstrip().endswith('const') or ' const ' in qt.split(')')[-1] + ' '
+                    if is_const and m.get('storageClass') != 'static' and m.get('name') and not m['name'].startswith('operator'):
+                        const_members.add(m['name'])
         for c in n.get('inner', []) or []:
             visit(c, parents + [kind])
 
@@ -113,6 +130,10 @@ def main():
     lines.append('].')
     lines.append('Definition mutable_fields : list (string * string * nat) := [')
     lines.append(';\n'.join('  (%s, %s, %d)' % (coq_str(a), coq_str(b), c) for a, b, c in mutables))
+    lines.append('].')
+    lines.append('(* public const non-static member functions of class ST::string (operators excluded) *)')
+    lines.append('Definition string_const_members : list string := [')
+    lines.append(';\n'.join('  ' + coq_str(c) for c in sorted(const_members)))
     lines.append('].')
     lines.append('(* non-member functions called from the headers and not declared in them *)')
     lines.append('Definition extern_calls : list string := [')
